@@ -1,7 +1,7 @@
 (* C04 -- the head-loss surface is physically ordered, monotone and free of jumps.
    Statements only; proofs in Lemmas/SwameeJain.v, LIl.v, LSettle.v, LHe.v, LC01.v -- all about the regenerated model. *)
-From Coq Require Import Reals.
-From DHV Require Import NumOps RInst LIl LSettle LHe LC01.
+From Coq Require Import Reals Lra.
+From DHV Require Import NumOps RInst LIl LSettle LHe LC01 LHo.
 From DHV Require Constants Homogeneous Heterogeneous Framework.
 Local Open Scope R_scope.
 
@@ -85,3 +85,45 @@ Theorem C04_sqrtcx_breakpoints :
   (forall g w : R, g = w -> g * (6 / 10) + w * (1 - 6 / 10) = g).
 Proof. split; [exact LHe.sqrtcx_break_small|exact LHe.sqrtcx_break_wilson]. Qed.
 Print Assumptions C04_sqrtcx_breakpoints.
+
+(* the homogeneous excess gradient (Eqn 8.7-8: sliding-flow blend off, or below its onset d/Dp < 0.015) lies between
+   zero and the liquid gradient, on the envelope with steel roughness (eps <= 4.5e-5 m): lambda <= 8/225 there, which
+   is exactly what makes the Talmon term sb <= 1 + Rsd Cvs *)
+Theorem C04_ho_between : forall (vls Dp d eps nu rhol rhos Cvs : R) (sf : bool),
+  liqE_steel vls Dp eps nu -> 0 < d -> 0 < rhol < rhos -> 0 < Cvs ->
+  (sf = false \/ d / (Constants.particle_ratio RN * Dp) < 1) ->
+  0 <= Homogeneous.Erhg RN vls Dp d eps nu rhol rhos Cvs sf <= Homogeneous.fluid_head_loss RN vls Dp eps nu rhol.
+Proof. exact LHo.ho_bounds. Qed.
+Print Assumptions C04_ho_between.
+
+Theorem C04_friction_factor_bound : forall vls Dp eps nu : R, liqE_steel vls Dp eps nu ->
+  Homogeneous.swamee_jain_ff RN (Homogeneous.pipe_reynolds_number RN vls Dp nu) Dp eps <= 8 / 225.
+Proof. exact LHo.lambda_small. Qed.
+Print Assumptions C04_friction_factor_bound.
+
+(* the selected uniform-sand excess gradient is never negative: for spatial-concentration input ... *)
+Theorem C04_selected_nonneg : forall (sf sq : bool) (vls Dp d eps nu rhol rhos Cvs : R),
+  liqE_steel vls Dp eps nu -> 0 < d -> 0 < rhol < rhos -> 0 < Cvs ->
+  0 <= Framework.Cvs_Erhg RN sf sq vls Dp d eps nu rhol rhos Cvs.
+Proof. exact LHo.Cvs_nonneg. Qed.
+Print Assumptions C04_selected_nonneg.
+
+(* ... and for delivered-concentration input whenever the slip ratio is below 1 (the part of C05 that is proved is
+   Xi > 0; Xi < 1 follows from C05's upper bound, which is searched) *)
+Theorem C04_delivered_nonneg_partial : forall (sf sq : bool) (vls Dp d eps nu rhol rhos Cvt : R),
+  liqE_steel vls Dp eps nu -> 0 < d -> 0 < rhol < rhos -> 0 < Cvt ->
+  Framework.slip_ratio RN vls Dp d eps nu rhol rhos Cvt < 1 ->
+  0 <= Framework.Cvt_Erhg RN sf sq vls Dp d eps nu rhol rhos Cvt.
+Proof. exact LHo.Cvt_nonneg. Qed.
+Print Assumptions C04_delivered_nonneg_partial.
+
+(* the heterogeneous excess gradient is positive *)
+Theorem C04_he_positive : forall (sf sq : bool) (vls Dp d eps nu rhol rhos Cvs : R),
+  liqE vls Dp eps nu -> 0 < d -> 0 < rhol < rhos -> 0 < Heterogeneous.Erhg RN vls Dp d eps nu rhol rhos Cvs sf sq.
+Proof. exact LHo.he_pos. Qed.
+Print Assumptions C04_he_positive.
+
+(* the envelope is not empty *)
+Theorem C04_nonvacuous : liqE_steel 3 (762 / 1000) (45 / 1000000) (10508 / 10000000000).
+Proof. unfold liqE_steel, liqE. repeat split; lra. Qed.
+Print Assumptions C04_nonvacuous.
